@@ -165,6 +165,15 @@ def search(ctx: core.Ctx) -> None:
             seeds.append((c["a"], c.get("b", c["a"])))
     if seeds:
         run(ctx, seeds[:200], "search-disagreeing", envs=G.envs())
+    # disagreements met in a call-history stream: repeat each one after the calls that preceded it
+    done = 0
+    for d in ctx.disagreements:
+        i = d["input"]
+        c = i.get("case", i) if isinstance(i, dict) else None
+        if c and c.get("history") and done < 40 and not ctx.violations:
+            done += 1
+            hist = [(x[0], x[1]) for x in c["history"]]
+            run(ctx, hist + [(c["a"], c.get("b", c["a"]))], "search-history", envs=G.envs(), keep_caches=True)
     if not ctx.violations:
         pairs = [gen_pair(ctx.rng) for _ in range(1500)]
         for k in range(0, len(pairs), 300):
